@@ -226,6 +226,19 @@ fn run_case(id: usize, text: &str, n: usize, stop: Option<char>, w: &mut ShardWr
             st.fail(jobj(&[("what", jstr("re-using the parser object changes the result")), ("input", jstr(&label))]));
         }
     }
+    // ... also after it has parsed something with a different attribute count, successfully or not
+    for (warm_text, warm_n) in [("M 1 2 30 40 50 L 3 4 60 70 80 Z", 3usize), ("M 1 2 9 L 3 ?", 1), ("M 0 0 L 1 1", 0)] {
+        if warm_n == n {
+            continue;
+        }
+        let mut p2 = PathParser::new();
+        let _ = run_parser(warm_text, warm_n, None, &mut p2);
+        let o3 = run_parser(text, n, stop, &mut p2);
+        if err_code(&o3) != code || o3.calls != o.calls || o3.panicked != o.panicked {
+            st.fail(jobj(&[("what", jstr("a parser object used before with another attribute count gives a different result")), ("input", jstr(&format!("after {:?} (n={}): {}", warm_text, warm_n, label)))]));
+            break;
+        }
+    }
     // the real path builder (validator active in debug builds) accepts the same call sequence
     {
         let r = catch(|| {
